@@ -99,7 +99,11 @@ pub fn check(v: &View, vd: &mut Verdict) {
             if ks.is_empty() || kinds_at(a, o.end.unwrap()).is_empty() {
                 continue;
             }
-            if o.err() {
+            // a call whose handler exceeds the configured handler timeout is abandoned: its error is C11's matter
+            let abandoned = v.rt[a].timeout.is_some_and(|(t, _)| {
+                o.msg.and_then(|id| v.work_of(id)).is_some_and(|w| w.iter().map(|s| if let Step::Sleep(x) = s { *x as u64 } else { 0 }).sum::<u64>() > t as u64)
+            });
+            if o.err() && !abandoned {
                 vd.fail(
                     format!("C15/weak_submit_err/{:?}/only={}", o.via.unwrap(), shape(&ks)),
                     format!("actor {a}: {:?} through a {:?} at {} failed ({:?}) although these strong handles existed: {ks:?}", o.what, o.via, o.begin, o.res),
